@@ -192,6 +192,12 @@ def subspaces(tier):
                 yield {'files': [{'recs': [list(x) for x in l], 'entry': None, 'off': 0}], 'opt': o}
     subs.append(('one-record x opts<=%d' % k, cases([0x41, 0x70, 0x76], 1, O)))
     subs.append(('two-records-8080 x opts<=%d' % k, cases([0x41], 2, O)))
+    # option pairs that share one output position (the checksum byte behind the -S header, inside a lane or a window)
+    pairs = [dict(a, **b) for a in ({'S': 1}, {'S': 2}, {'S': -4}, {'S': 3, 'e': 0x123456}) for b in ({'s': True}, {'s': True, 'r': (0, 15)}, {'s': True, 'l': 0})]
+    subs.append(('one-record x header+checksum', cases([0x41, 0x70], 1, pairs)))
+    if q:
+        # chained merges of the overlap bookkeeping need three records (a new record overlapping one neighbour and abutting the other)
+        subs.append(('three-records-8080', cases([0x41], 3, [{}, {'r': (0, 15)}, {'l': 0}])))
     if not q:
         subs.append(('two-records-pic x opts<=%d' % k, cases([0x70], 2, O)))
         subs.append(('two-records-c3x x opts<=1', cases([0x76], 2, optsets(1))))
